@@ -97,6 +97,9 @@ func reifyUnpackCase(r *Rng, t *tyNode, cfgData map[string]interface{}, pol int,
 	if t.usesCheckTag() {
 		opts = append(opts, ucfg.ValidatorTag("check"))
 	}
+	if t.usesAltCTag() {
+		opts = append(opts, ucfg.StructTag("alt"))
+	}
 	cfg, err := ucfg.NewFrom(cfgData, ucfg.PathSep("."))
 	if err != nil {
 		return Case{}, false
@@ -237,23 +240,23 @@ type vHook struct {
 }
 
 var vInitTy = &tyNode{Kind: "struct", Fields: []tyField{
-	{"A", "a", "min=1", &tyNode{Kind: "prim", Prim: primKinds[1]}, "", false},
-	{"B", "b", "min=1", &tyNode{Kind: "prim", Prim: primKinds[1]}, "", false},
-	{"C", "c", "", &tyNode{Kind: "prim", Prim: primKinds[1]}, "", false}}}
+	{"A", "a", "min=1", &tyNode{Kind: "prim", Prim: primKinds[1]}, "", false, "", false},
+	{"B", "b", "min=1", &tyNode{Kind: "prim", Prim: primKinds[1]}, "", false, "", false},
+	{"C", "c", "", &tyNode{Kind: "prim", Prim: primKinds[1]}, "", false, "", false}}}
 
 func vInitGV(x vInit) string {
 	return fmt.Sprintf("(GStructV [GP (CI (%d)); GP (CI (%d)); GP (CI (%d))])", int(x.A), int(x.B), int(x.C))
 }
 
 var vRangeTy = &tyNode{Kind: "struct", Fields: []tyField{
-	{"Min", "min", "", &tyNode{Kind: "prim", Prim: primKinds[1]}, "", false},
-	{"Max", "max", "", &tyNode{Kind: "prim", Prim: primKinds[1]}, "", false},
-	{"Name", "name", "", &tyNode{Kind: "prim", Prim: primKinds[9]}, "", false}}}
+	{"Min", "min", "", &tyNode{Kind: "prim", Prim: primKinds[1]}, "", false, "", false},
+	{"Max", "max", "", &tyNode{Kind: "prim", Prim: primKinds[1]}, "", false, "", false},
+	{"Name", "name", "", &tyNode{Kind: "prim", Prim: primKinds[9]}, "", false, "", false}}}
 var vOuterTy = &tyNode{Kind: "struct", Fields: []tyField{
-	{"Label", "label", "", &tyNode{Kind: "prim", Prim: primKinds[9]}, "", false},
-	{"R", "r", "", vRangeTy, "", false},
-	{"P", "p", "", &tyNode{Kind: "ptr", Elem: vRangeTy}, "", false},
-	{"Keep", "keep,ignore", "", &tyNode{Kind: "prim", Prim: primKinds[1]}, "", false}}}
+	{"Label", "label", "", &tyNode{Kind: "prim", Prim: primKinds[9]}, "", false, "", false},
+	{"R", "r", "", vRangeTy, "", false, "", false},
+	{"P", "p", "", &tyNode{Kind: "ptr", Elem: vRangeTy}, "", false, "", false},
+	{"Keep", "keep,ignore", "", &tyNode{Kind: "prim", Prim: primKinds[1]}, "", false, "", false}}}
 
 func hookedCases(g *Gen) {
 	r := g.R
@@ -384,8 +387,66 @@ func hookedCases(g *Gen) {
 	}
 }
 
+// sharedDefaultsFault: one block of settings (with expressions a resolver answers) merged into
+// two places of a configuration; the copy at the first place converts, the copy at the second
+// place does not: the error names the second place
+func sharedDefaultsFault(r *Rng) Case {
+	answer := []string{"abc", "x y", "1.5.2"}[r.Intn(3)]
+	res := func(name string) (string, ucfgParseConfig, error) {
+		if name == "r" {
+			return answer, parseDefault, nil
+		}
+		return "", parseDefault, ucfg.ErrMissing
+	}
+	source := "defaults.yml"
+	opts := []ucfg.Option{ucfg.PathSep("."), ucfg.VarExp, ucfg.Resolve(res)}
+	key := []string{"hosts", "x"}[r.Intn(2)]
+	val := []string{"${r}", "pre-${r}", "${nope:${r}}"}[r.Intn(3)]
+	d, err := ucfg.NewFrom(map[string]interface{}{key: val, "n": int64(1)}, append(append([]ucfg.Option{}, opts...), ucfg.MetaData(ucfg.Meta{Source: source}))...)
+	cfg := ucfg.New()
+	if err == nil {
+		err = cfg.Merge(map[string]interface{}{"output": map[string]interface{}{"es": d, "ls": d}}, opts...)
+	}
+	if err != nil {
+		return Case{}
+	}
+	strT := &tyNode{Kind: "prim", Prim: primKinds[9]}
+	intT := &tyNode{Kind: "prim", Prim: primKinds[1]}
+	bad := []*tyNode{{Kind: "slice", Elem: intT}, {Kind: "array", N: 1, Elem: intT}, intT}[r.Intn(3)]
+	sec := func(ft *tyNode) *tyNode {
+		return &tyNode{Kind: "struct", Fields: []tyField{{GoName: "V", CTag: key, T: ft}, {GoName: "N", CTag: "n", T: intT}}}
+	}
+	t := &tyNode{Kind: "struct", Fields: []tyField{{GoName: "Output", CTag: "output", T: &tyNode{Kind: "struct", Fields: []tyField{
+		{GoName: "Es", CTag: "es", T: sec(strT)}, {GoName: "Ls", CTag: "ls", T: sec(bad)}}}}}}
+	target := reflect.New(t.goType())
+	var uerr error
+	panicked, pmsg := guard(func() { uerr = cfg.Unpack(target.Interface(), opts...) })
+	obs, dd := uobs(t, target.Elem(), uerr, panicked, pmsg)
+	msg := ""
+	if uerr != nil {
+		msg = uerr.Error()
+		if e, ok := uerr.(ucfg.Error); !ok || e.Reason() == nil || e.Class() == nil {
+			obs = "UPanic"
+		}
+	}
+	if i := strings.Index(msg, "\nTrace:"); i >= 0 {
+		msg = msg[:i]
+	}
+	path := "output.ls." + key
+	coq := fmt.Sprintf("CFault %s %s %s %s %s %s %s", coqRopts(0, nil, nil), t.coq(), coqValue(ucfg.VerifDump(cfg)), coqStr(path), coqStr(source), obs, coqStr(msg))
+	return Case{Coq: coq, Desc: map[string]interface{}{"kind": "fault", "type": t.desc(), "config": "one block {" + key + ": " + val + "} merged at output.es and output.ls, resolver r = " + answer, "fault": "conversion of the second copy", "fault_path": path, "observed": dd, "message": msg},
+		Tags: []string{"fault:shared-defaults"}, Nontrivial: true}
+}
+
 func genReify(g *Gen, mode string) {
 	r := g.R
+	if mode == "C14" {
+		for i := 0; i < 12; i++ {
+			if c := sharedDefaultsFault(r); c.Coq != "" {
+				g.Add(c)
+			}
+		}
+	}
 	if mode == "C13" || mode == "C04" {
 		hookedCases(g)
 	}
@@ -433,8 +494,11 @@ func genReify(g *Gen, mode string) {
 				t, cfgData, fix = keptInvalid(r)
 			} else if tcfg.Validators && r.P(1, 12) {
 				t, cfgData, fix = ptrInvalid(r)
+			} else if tcfg.Handling && r.P(1, 10) {
+				t, cfgData, fix = emptiedLists(r)
 			}
 			dual := mode == "C04" && fix == nil && r.P(1, 5)
+			dualC := mode == "C13" && fix == nil && r.P(1, 5)
 			if dual {
 				// the same Go type carries validators under two tag names: it is unpacked once per name
 				dualize(r, t)
@@ -442,11 +506,28 @@ func genReify(g *Gen, mode string) {
 					t = swapTags(t)
 				}
 			}
+			if dualC {
+				// the same Go type names its fields differently under two struct tag names
+				dualizeC(t)
+				if r.Bool() {
+					t = swapCTags(t)
+				}
+			}
 			if c, ok := reifyUnpackCase(r, t, cfgData, []int{0, 0, 1, 2, 3}[r.Intn(5)], pz, fix); ok {
 				if dual {
 					c.Tags = append(c.Tags, "dual-tag:first")
 				}
 				g.Add(c)
+			}
+			if dualC {
+				t2 := swapCTags(t)
+				if t2.goType() != t.goType() {
+					panic("swapCTags changed the Go type")
+				}
+				if c, ok := reifyUnpackCase(r, t2, cfgData, []int{0, 0, 1, 2, 3}[r.Intn(5)], pz, nil); ok {
+					c.Tags = append(c.Tags, "dual-ctag:second")
+					g.Add(c)
+				}
 			}
 			if dual {
 				t2 := swapTags(t)
@@ -521,6 +602,56 @@ func keptInvalid(r *Rng) (*tyNode, map[string]interface{}, func(reflect.Value)) 
 			}
 			s.Index(i).Set(e)
 		}
+	}
+	return t, cfg, fix
+}
+
+// emptiedLists: pre-filled lists that the configuration sets to an empty list (or to null) where
+// the merge policy reaches them from outside - as values of a map field with a handling tag, or
+// through the policy of the call: under replace they are emptied, otherwise they stay
+func emptiedLists(r *Rng) (*tyNode, map[string]interface{}, func(reflect.Value)) {
+	intT := &tyNode{Kind: "prim", Prim: primKinds[1]}
+	lt := &tyNode{Kind: "slice", Elem: intT}
+	h := []string{"", ",replace", ",replace", ",append", ",prepend", ",merge"}[r.Intn(6)]
+	t := &tyNode{Kind: "struct", Fields: []tyField{
+		{GoName: "M", CTag: "m" + h, T: &tyNode{Kind: "map", Elem: lt}},
+		{GoName: "L", CTag: "l" + []string{"", ",replace"}[r.Intn(2)], T: lt},
+		{GoName: "I", CTag: "i" + h, T: &tyNode{Kind: "map", Elem: &tyNode{Kind: "iface"}}},
+		{GoName: "Z", CTag: "z", T: intT}}}
+	empty := func() interface{} {
+		switch r.Intn(4) {
+		case 0:
+			return nil
+		case 1:
+			return []interface{}{int64(9)}
+		default:
+			return []interface{}{}
+		}
+	}
+	cfg := map[string]interface{}{"z": int64(1)}
+	m := map[string]interface{}{}
+	for _, k := range []string{"a", "b", "c"} {
+		if r.P(2, 3) {
+			m[k] = empty()
+		}
+	}
+	cfg["m"] = m
+	if r.Bool() {
+		cfg["l"] = empty()
+	}
+	if r.Bool() {
+		cfg["i"] = map[string]interface{}{"a": empty()}
+	}
+	fix := func(v reflect.Value) {
+		mm := reflect.MakeMap(v.Field(0).Type())
+		for _, k := range []string{"a", "b"} {
+			mm.SetMapIndex(reflect.ValueOf(k), reflect.ValueOf([]int{1, 2}))
+		}
+		v.Field(0).Set(mm)
+		v.Field(1).Set(reflect.ValueOf([]int{3, 4}))
+		im := reflect.MakeMap(v.Field(2).Type())
+		im.SetMapIndex(reflect.ValueOf("a"), reflect.ValueOf([]interface{}{5, 6}))
+		v.Field(2).Set(im)
 	}
 	return t, cfg, fix
 }
@@ -798,6 +929,44 @@ func reifyFaultCase(r *Rng, t *tyNode) (Case, bool) {
 				segs[i] = strconv.Itoa(idx + k)
 				f.path = strings.Join(segs, ".")
 				mergedTag = "built:prepend-merge"
+				break
+			}
+		}
+	}
+	// sometimes the list was longer when it was built and entries before the faulty one were
+	// removed afterwards: the entries that moved down are named by the position they have now
+	if segs := strings.Split(f.path, "."); mergedTag == "built:once" && r.P(1, 2) {
+		for i, sg := range segs {
+			if _, err := strconv.Atoi(sg); err == nil && i > 0 {
+				lst, ok := lookupDotted(cfgData, segs[:i]).([]interface{})
+				lv, ok2 := lookupDotted(valid, segs[:i]).([]interface{})
+				if !ok || !ok2 || len(lv) == 0 {
+					break
+				}
+				k := 1 + r.Intn(2)
+				longer := make([]interface{}, 0, len(lst)+k)
+				for j := 0; j < k; j++ {
+					longer = append(longer, deepCopy(lv[r.Intn(len(lv))]))
+				}
+				longer = append(longer, lst...)
+				d2 := deepCopy(cfgData).(map[string]interface{})
+				if !replaceAt(d2, segs[:i], longer) {
+					break
+				}
+				c2, err := ucfg.NewFrom(d2, ucfg.PathSep("."), ucfg.MetaData(ucfg.Meta{Source: source}))
+				if err != nil {
+					break
+				}
+				okRm := true
+				for j := 0; j < k; j++ {
+					if _, err := c2.Remove(strings.Join(segs[:i], "."), 0, ucfg.PathSep(".")); err != nil {
+						okRm = false
+					}
+				}
+				if okRm {
+					cfg = c2
+					mergedTag = "built:longer-then-removed"
+				}
 				break
 			}
 		}
